@@ -20,7 +20,7 @@ META = {
              "beyond), with a repeated call and with re-use of the same objects on another cube and back; non-mutating "
              "index methods are snapshotted likewise. Non-trivial: a call with >=1 missing fact or weight row; distinct "
              "by content hash"),
-    "require": {t: ["calls:calculate", "calls:shortcut", "calls:construct", "calls:walk", "calls:index_method",
+    "require": {t: ["calls:calculate", "calls:shortcut", "calls:construct", "calls:construct_with_inferred_shape", "calls:walk", "calls:index_method",
                     "cube:ccube", "cube:xcube", "perm:checked", "reuse_other_cube:checked", "class:garbage_under_false",
                     "reuse_other_rowcount:checked", "repeated_object_in_list:checked", "reuse_zero_dim_cube:checked", "state_on_index_objects:checked"]
                 for t in ("quick", "thorough")},
@@ -140,6 +140,22 @@ def judge(ctx, case):
     ctx.count("calls:construct")
     if not w.check("cube construction"):
         return
+    if dense:
+        # the same construction with the cube shape left to the library (it then inspects the dimensions itself)
+        if kind == "ccube":
+            dims_i = gen.cube_dims(case)
+        else:
+            dims_i = [a.copy() for a in dense]
+        wi = Watch(ctx, case)
+        for i, d in enumerate(dims_i):
+            wi.add("dims[%d]" % i, d)
+        cube_i = cls(dims_i)
+        ctx.count("calls:construct_with_inferred_shape")
+        if not wi.check("cube construction (shape inferred)"):
+            return
+        cube_i.count()
+        if not wi.check("count() on a cube with inferred shape"):
+            return
     other = cls(odims, interacting_shape=tuple(case["other"]["shape"])) if dense else cls([])
 
     rma = gen.pick(numpy.random.default_rng(case["pseed"]), [NaN, (0, False), NaN])
